@@ -26,13 +26,36 @@ fn handler(payload: &Sexp) -> Sexp {
             .collect(),
         _ => return tagged("garbled-payload", vec![]),
     };
-    let p = Program::from_instructions(parse_pieces(&pieces));
-    match p.expand_calibrations() {
-        Ok(e) => tagged("ok", vec![nat(e.body_instructions().count() as u64)]),
-        Err(ProgramError::RecursiveCalibration(i)) => tagged("recursive", vec![instruction_to_sexp(&i)]),
-        Err(_) => tagged("error", vec![]),
+    // The expansion runs on a thread with a STACK of `STACK_BYTES` (Rust's default for spawned threads is 2 MiB,
+    // the main thread's usually 8 MiB): an unbounded recursion overflows it after a few thousand levels instead of
+    // tens of thousands — with the growing expressions every level costs time linear in its depth, so reaching
+    // the end of an 8 MiB stack takes more than a minute per case.  The overflow aborts the whole child process
+    // either way (observed by the parent as `(abort "signal: 6 …")`).
+    let worker = std::thread::Builder::new().stack_size(STACK_BYTES).spawn(move || {
+        let p = Program::from_instructions(parse_pieces(&pieces));
+        match p.expand_calibrations() {
+            Ok(e) => tagged("ok", vec![nat(e.body_instructions().count() as u64)]),
+            Err(ProgramError::RecursiveCalibration(i)) => tagged("recursive", vec![instruction_to_sexp(&i)]),
+            Err(_) => tagged("error", vec![]),
+        }
+    });
+    match worker.expect("spawn worker").join() {
+        Ok(s) => s,
+        Err(e) => {
+            let msg = if let Some(s) = e.downcast_ref::<&str>() {
+                s.to_string()
+            } else if let Some(s) = e.downcast_ref::<String>() {
+                s.clone()
+            } else {
+                "panic".to_string()
+            };
+            tagged("crash", vec![st(msg)])
+        }
     }
 }
+
+/// stack of the thread the expansion runs on (see `handler`)
+const STACK_BYTES: usize = 256 << 10;
 
 /// Hand-written witnesses (pieces).
 const CORPUS: &[&[&str]] = &[
